@@ -109,6 +109,17 @@ Second generation (class GenR; Gen/CommitmentPolicyGen.v): functions over struct
                `v.get(i)` on a Vec<S> (vec_nth), `!b`, `for x in v.iter() { .. }` whose body assigns nothing (the
                loop-carried state is the unit value), `const NAME: [u32; n] = [..];` of an impl block (hex literals),
                `.to_vec()` on it, `v.contains(&x)` (vec_contains).
+  added for Gen/MutualCloseGen.v (the cooperative-close validator):
+               `Option<S>` for a declared struct S (fields and parameters), `String` (only built from a literal with
+               `.to_string()` and formatted); `opt.ok_or_else(|| policy_error(tag, msg))?` on an Option of a struct or
+               an opaque value (`x <-? ok_or o tag`); `.is_none()`, `.is_some()`, `v.is_empty()`;
+               `if c { .. } else { .. }` as a statement (branches assign nothing outside, leave only by errors);
+               `if let Some(x) = &opt { .. }` as a statement (`match o with Some x => block | None => Val (OkR tt) end`);
+               `if let (true, x) = e { .. }` for a tuple value (boolean literals and binders): e is evaluated, the block
+               runs when the literals match; calls `self.m(..)` of a translated validator method with a plain value, and
+               of one translated into another generated file (validate_fee of Gen/CommitmentPolicyGen.v);
+               an opaque call (i) may be any expression over the unshadowed parameters, given to the translator as
+               source text and compared as a syntax tree (`mutual_close_tx_weight(&ClosingTransaction::new(..)..)`).
   refused    : a Rust binder whose name the generated text uses itself (prof, warn, policy, Val, t<digits>, gen_.., ..), a
                `let` that shadows a variable in scope, `return`, `else`
                branches of statements, `match`, `&mut`, closures anywhere else, struct literals, everything not listed.
@@ -195,6 +206,11 @@ def norm_type(t, known=None):
             return t
         if t in known and known[t] != "path":
             return known[t]
+        if t == "String":
+            return "str"
+        m = re.match(r"^Option<([A-Z][A-Za-z0-9]*)>$", t)
+        if m and known.get(m.group(1), "").startswith("struct:"):
+            return "opt_struct:" + m.group(1)
         m = re.match(r"^Result<([A-Z][A-Za-z0-9]*),ValidationError>$", t)
         if m and m.group(1) not in known:
             return "result:id"            # Ok carries an opaque value
@@ -446,7 +462,7 @@ class P:
                 stmts.append(("return", e))
             elif self.at("if"):
                 e = self.if_expr()
-                if e[0] in ("if_stmt", "iflet_stmt", "ifelse_stmt"):
+                if e[0] in ("if_stmt", "iflet_stmt", "ifelse_stmt", "iflet_tuple"):
                     stmts.append(e)
                 elif self.at("}") or self.at(";"):
                     tail = e
@@ -537,6 +553,30 @@ class P:
 
     def if_expr(self):
         self.eat("if")
+        if self.at("let") and self.known is not None and self.peek(1)[1] == "(":
+            # if let (true, x) = e { .. } : a tuple pattern of boolean literals and binders, without else
+            self.eat("let")
+            self.eat("(")
+            pats = []
+            while not self.at(")"):
+                kk, vv = self.peek()
+                if vv in ("true", "false") or kk == "id":
+                    pats.append(self.eat())
+                else:
+                    raise GenError("tuple pattern component %r is outside the fragment" % vv)
+                if self.at(","):
+                    self.eat(",")
+            self.eat(")")
+            self.eat("=")
+            e = self.expr()
+            a = self.block()
+            if self.at("else"):
+                raise GenError("`if let (..) = .. {} else {}` is outside the fragment")
+            if a[1] is not None:
+                if a[1][0] != "macro":
+                    raise GenError("an `if let` block with a value is outside the fragment")
+                a = (a[0] + [("expr", a[1])], None)
+            return ("iflet_tuple", pats, e, a)
         if self.at("let"):
             self.eat("let")
             self.eat("Some")
@@ -562,7 +602,7 @@ class P:
         self.eat("else")
         if self.at("if"):
             inner = self.if_expr()
-            b = ([inner], None) if inner[0] in ("if_stmt", "iflet_stmt", "ifelse_stmt") else ([], inner)
+            b = ([inner], None) if inner[0] in ("if_stmt", "iflet_stmt", "ifelse_stmt", "iflet_tuple") else ([], inner)
             if b[1] is None:
                 return ("ifelse_stmt", c, a, b)
             return ("if", c, a, b)
@@ -1778,6 +1818,26 @@ class GenR(Gen):
                 if not tv.startswith("vec:"):
                     raise GenError("len of a %s" % tv)
                 return b, "(len_of %s)" % v, "usize"
+            if name in ("is_none", "is_some") and not args:
+                b, v, tv = self.expr(recv, env)
+                if not (tv in ("opt_id", "opt_u64", "opt_u32") or tv.startswith("opt_struct:")):
+                    raise GenError(".%s() on a %s is outside the fragment" % (name, tv))
+                return b, "(%s_of %s)" % (name, v), "bool"
+            if name == "is_empty" and not args:
+                b, v, tv = self.expr(recv, env)
+                if not tv.startswith("vec:"):
+                    raise GenError(".is_empty() on a %s is outside the fragment" % tv)
+                return b, "(is_empty_of %s)" % v, "bool"
+            if name == "to_string" and not args and recv[0] == "str":
+                return self.expr(recv, env)
+            if recv == ("var", "self") and self.owner == self.validator and (self.validator, name) in self.methods2 \
+                    and not self.methods2[(self.validator, name)]["ret"].startswith("result"):
+                # a translated method of the validator with a plain value
+                m2 = self.methods2[(self.validator, name)]
+                bs, cs = self.call_args(name, args, m2, env)
+                extra = self.pass_opaque((self.validator, name))
+                x = self.fresh()
+                return bs + [(x, " ".join([self.validator_head(name)] + extra + cs))], x, m2["ret"]
             if name == "get" and len(args) == 1:
                 b, v, tv = self.expr(recv, env)
                 if tv.startswith("vec:"):
@@ -1820,7 +1880,7 @@ class GenR(Gen):
                 self.tmp = save_
             if name in ("as_ref", "clone") and not args:
                 b, v, tv = self.expr(recv, env)
-                if tv not in ("id", "opt_id"):
+                if tv not in ("id", "opt_id") and not tv.startswith("opt_struct:"):
                     raise GenError(".%s() of a %s is outside the fragment" % (name, tv))
                 return b, v, tv                   # a borrow / a copy of an opaque value is the value
             if (name == "unwrap" and not args) or (name == "expect" and len(args) == 1 and args[0][0] == "str"):
@@ -1899,6 +1959,8 @@ class GenR(Gen):
 
     def pass_opaque(self, key):
         """the opaque parameters of a translated callee are handed on under the same names"""
+        if key in self.coq_fn:
+            return []                         # translated in another file, without parameters of its own
         if key not in self.sig_opaque:
             raise GenError("%s is called before it is translated" % (key,))
         out = []
@@ -1985,6 +2047,28 @@ class GenR(Gen):
                 self.use_opaque(pname, pty)
                 x = self.fresh()
                 return [(x, pname, "tryR")], x, {"comp:result_unit": "unit"}[pty]
+        if inner[0] == "mcall" and inner[2] == "ok_or_else" and len(inner[3]) == 1 \
+                and not (inner[1][0] == "mcall" and inner[1][2] in ("checked_add", "checked_sub", "checked_mul")):
+            # <option>.ok_or_else(|| policy_error(tag, message))? : the value of Some, or an unfiltered error
+            clo = inner[3][0]
+            if not (clo[0] == "closure" and not clo[1]):
+                raise GenError("ok_or_else needs a closure without parameters")
+            body = clo[2]
+            if body[0] == "block" and not body[1] and body[2] is not None:
+                body = body[2]
+            if not (body[0] == "call" and body[1] == "policy_error" and len(body[2]) == 2):
+                raise GenError("ok_or_else(|| ..) with anything but policy_error(tag, message) is outside the fragment")
+            tag = self.tag_code(body[2][0], env)
+            self.message_ok(body[2][1], env)
+            b1, a, ta = self.expr(inner[1], env)
+            if ta.startswith("opt_struct:"):
+                tv_ = "struct:" + ta[11:]
+            elif ta == "opt_id":
+                tv_ = "id"
+            else:
+                raise GenError("ok_or_else on a %s is outside the fragment" % ta)
+            x = self.fresh()
+            return b1 + [(x, "ok_or %s %s" % (a, tag), "tryR")], x, tv_
         if inner[0] == "mcall" and inner[2] == "ok_or_else" and len(inner[3]) == 1 and inner[1][0] == "mcall" \
                 and inner[1][2] in ("checked_add", "checked_sub", "checked_mul") and len(inner[1][3]) == 1:
             clo = inner[3][0]
@@ -2012,8 +2096,7 @@ class GenR(Gen):
             bs, cs = self.call_args(inner[2], inner[3], m2, env)
             extra = self.pass_opaque((self.validator, inner[2]))
             x = self.fresh()
-            head_ = "gen_%s prof warn policy" % inner[2] if self.policy_struct else "gen_%s prof warn" % inner[2]
-            return bs + [(x, " ".join([head_] + extra + cs), "tryR")], x, "unit"
+            return bs + [(x, " ".join([self.validator_head(inner[2])] + extra + cs), "tryR")], x, "unit"
         raise GenError("`?` on %r is outside the fragment" % (inner,))
 
     def emit_binds(self, binds, k):
@@ -2055,6 +2138,8 @@ class GenR(Gen):
                 out += self.assigned2(s[3][0])
             elif s[0] == "match_opt":
                 out += self.assigned2(s[2][0]) + self.assigned2(s[4][0])
+            elif s[0] == "iflet_tuple":
+                out += self.assigned2(s[3][0])
             elif s[0] == "attr":
                 out += self.assigned2([s[2]])
         seen = []
@@ -2215,16 +2300,77 @@ class GenR(Gen):
             # if let Some(x) = &opt { only logging } : dropped.  The block may bind the results of the listed helpers
             # (lazy iterators over the HTLC lists), which only the log lines consume.
             b, c, t = self.expr(s[2], env)
-            if b or t != "opt_id" or s[3][1] is not None:
-                raise GenError("`if let` on anything but an Option of an opaque value is outside the fragment")
-            for st in s[3][0]:
+            if s[3][1] is not None or not (t == "opt_id" or t.startswith("opt_struct:")):
+                raise GenError("`if let Some(..)` on a %s, or with a value, is outside the fragment" % t)
+
+            def logs_only(st):
                 if st[0] == "expr" and st[1][0] == "macro" and st[1][1] in ("debug", "trace", "info", "warn"):
-                    continue
-                if st[0] == "let" and st[2] is None and st[3][0] == "mcall" and st[3][1] == ("var", s[1]) \
-                        and st[3][2] in self.lazy_helpers and all(a[0] == "var" and a[1] in env for a in st[3][3]):
-                    continue
-                raise GenError("an `if let` block that does more than log is outside the fragment: %r" % (st,))
-            return self.stmts(rest, env, k)
+                    return True
+                return st[0] == "let" and st[2] is None and st[3][0] == "mcall" and st[3][1] == ("var", s[1]) \
+                    and st[3][2] in self.lazy_helpers and all(a[0] == "var" and a[1] in env for a in st[3][3])
+            if not b and s[3][0] and all(logs_only(st) for st in s[3][0]):
+                return self.stmts(rest, env, k)
+            # if let Some(x) = &opt { block } : the block for Some, nothing for None
+            if not self.tagged() or self.pure:
+                raise GenError("an `if let` statement outside the body of a function that returns Result")
+            if self.assigned2(s[3][0]):
+                raise GenError("an `if let` block that assigns a variable of the enclosing block is outside the fragment")
+            env_s = dict(env)
+            env_s[self.binder(s[1], env=env)] = "id" if t == "opt_id" else "struct:" + t[11:]
+            self.rebound.add(s[1])
+            self.depth += 1
+            some_t = self.stmts(s[3][0], env_s, lambda e2: "Val (OkR tt)")
+            self.depth -= 1
+            x = self.fresh()
+            return self.emit_binds(b, "%s <-? (match %s with\n| None => Val (OkR tt)\n| Some %s => (%s)\nend) ;;\n%s" % (
+                x, c, s[1], some_t, self.stmts(rest, env, k)))
+        if kind == "iflet_tuple":
+            # if let (true, x) = e { block } : e is evaluated, the block runs when the literal components match
+            if not self.tagged() or self.pure:
+                raise GenError("an `if let` statement outside the body of a function that returns Result")
+            if self.assigned2(s[3][0]):
+                raise GenError("an `if let` block that assigns a variable of the enclosing block is outside the fragment")
+            b, c, t = self.expr(s[2], env)
+            parts = t[6:].split(",") if t.startswith("tuple:") else []
+            if len(parts) != len(s[1]):
+                raise GenError("`if let (..)` with %d components on a %s" % (len(s[1]), t))
+            env_s, names, conds = dict(env), [], []
+            for pat, pt in zip(s[1], parts):
+                if pat in ("true", "false"):
+                    if pt != "bool":
+                        raise GenError("a boolean literal pattern on a %s" % pt)
+                    nm = self.fresh()
+                    conds.append(nm if pat == "true" else "(negb %s)" % nm)
+                else:
+                    nm = self.binder(pat, env=env)
+                    env_s[nm] = pt
+                    self.rebound.add(nm)
+                names.append(nm)
+            if not conds:
+                raise GenError("`if let (..)` without a literal component is outside the fragment")
+            self.depth += 1
+            inside = self.stmts(s[3][0], env_s, lambda e2: "Val (OkR tt)")
+            self.depth -= 1
+            x = self.fresh()
+            return self.emit_binds(b, "let '(%s) := %s in\n%s <-? (if %s\nthen (%s)\nelse Val (OkR tt)) ;;\n%s" % (
+                ", ".join(names), c, x, " && ".join(conds), inside, self.stmts(rest, env, k)))
+        if kind == "ifelse_stmt":
+            if not self.tagged() or self.pure:
+                raise GenError("an `if`/`else` statement outside the body of a function that returns Result")
+            if self.assigned2(s[2][0]) or self.assigned2(s[3][0]):
+                raise GenError("an `if`/`else` whose branches assign a variable of the enclosing block is outside the fragment")
+            if s[2][1] is not None or s[3][1] is not None:
+                raise GenError("an `if`/`else` statement whose branches have a value is outside the fragment")
+            b, c, t = self.expr(s[1], env)
+            if t != "bool":
+                raise GenError("if on a non-boolean")
+            self.depth += 1
+            then_t = self.stmts(s[2][0], env, lambda e2: "Val (OkR tt)")
+            else_t = self.stmts(s[3][0], env, lambda e2: "Val (OkR tt)")
+            self.depth -= 1
+            x = self.fresh()
+            return self.emit_binds(b, "%s <-? (if %s\nthen (%s)\nelse (%s)) ;;\n%s" % (
+                x, c, then_t, else_t, self.stmts(rest, env, k)))
         if kind == "match_opt":
             if not self.tagged() or self.pure:
                 raise GenError("a match statement outside the body of a function that returns Result")
@@ -2301,6 +2447,10 @@ class GenR(Gen):
         refused (see policy_err! / `?`)."""
         return self.cur.get("state_param")
 
+    def validator_head(self, name):
+        fn = self.coq_fn.get((self.validator, name), "gen_%s" % name)
+        return "%s prof warn policy" % fn if self.policy_struct else "%s prof warn" % fn
+
     def logging_ok(self, e, env):
         """debug!/trace!/info!/warn!/dbgvals! do not evaluate their arguments unless the level is enabled and have no
         effect on the answer.  policy_log! formats its message whatever the level: its arguments must be variables."""
@@ -2344,7 +2494,7 @@ class GenR(Gen):
             env[self.binder(x)] = t
         if owner == self.validator:
             head = ["(prof : profile)", "(warn : string -> bool)"] + \
-                   (["(policy : %s)" % self.policy_struct] if self.policy_struct else [])
+                   (["(policy : %s)" % self.coq_type("struct:" + self.policy_struct)] if self.policy_struct else [])
             name = "gen_%s" % m["name"]
         else:
             env["self"] = "struct:" + owner
@@ -2354,7 +2504,7 @@ class GenR(Gen):
         self.sig_opaque[(owner, m["name"])] = list(self.opaque_used)
         head += ["(%s : %s)" % (pn, self.coq_type(pt)) for pn, pt in self.opaque_used]
         if owner != self.validator:
-            head.append("(self : %s)" % owner)
+            head.append("(self : %s)" % self.coq_type("struct:" + owner))
         head += ["(%s : %s)" % (x, self.coq_type(t)) for x, t in m["params"]]
         rt = self.coq_type(m["ret"])
         if m.get("state_param"):
@@ -2738,6 +2888,88 @@ def _generate_sweep(repo):
                            "time_min", "version_two", "warn (the policy filter)"]}
 
 
+
+def generate_mutual_close(repo):
+    try:
+        return _generate_mutual_close(repo)
+    except (IndexError, KeyError, ValueError, TypeError, AttributeError, RecursionError, OSError) as e:
+        raise GenError("the source could not be read (%s: %s)" % (type(e).__name__, e))
+
+
+def _generate_mutual_close(repo):
+    """Gen/MutualCloseGen.v: validate_mutual_close_tx with outside_epsilon_range and CommitmentInfo2::htlcs_is_empty.
+    ChannelSetup, CommitmentInfo2, SimplePolicy and validate_fee are those of Gen/CommitmentPolicyGen.v."""
+    core = os.path.join(repo, "vls-core", "src")
+    rd = lambda *p: open(os.path.join(core, *p)).read()
+    sv, wl, va, tx, tu = rd("policy", "simple_validator.rs"), rd("wallet.rs"), rd("policy", "validator.rs"), rd("tx", "tx.rs"), \
+        rd("util", "transaction_utils.rs")
+    check_error_helpers(core)
+    uses = use_table(sv)
+    for n, mod in {"ChannelSetup": "crate::channel", "EnforcementState": "super::validator", "CommitmentInfo2": "crate::tx::tx",
+                   "Wallet": "crate::wallet", "policy_error": "super::error", "ScriptBuf": "bitcoin",
+                   "mutual_close_tx_weight": "crate::util::transaction_utils",
+                   "ClosingTransaction": "lightning::ln::chan_utils"}.items():
+        if uses.get(n) != mod:
+            raise GenError("simple_validator.rs: %s is expected from %s, found %s" % (n, mod, uses.get(n)))
+    wsrc = re.sub(r"\s+", " ", wl)
+    if not re.search(r"fn can_spend\( &self, child_path: &DerivationPath, script_pubkey: &ScriptBuf, \) -> Result<bool, Status>;", wsrc) \
+            or "fn allowlist_contains(&self, script_pubkey: &ScriptBuf, path: &DerivationPath) -> bool;" not in wsrc:
+        raise GenError("wallet.rs: trait Wallet no longer declares can_spend(path, script) -> Result<bool, Status> and "
+                       "allowlist_contains(script, path) -> bool")
+    if not re.search(r"fn mutual_close_tx_weight\(unsigned_tx: &Transaction\) -> usize", tu):
+        raise GenError("util/transaction_utils.rs: mutual_close_tx_weight(&Transaction) -> usize not found")
+    known_cp, structs_cp, _ = policy_decls(core)
+    known = dict(known_cp)
+    known.update({"EnforcementState": "struct:EnforcementState", "ScriptBuf": "path", "ClosingTransaction": "path"})
+    estate_fields = [(f, t) for f, t in struct_fields(va, "EnforcementState", skip_unknown=True, known=known)]
+    structs = {n: structs_cp[n] for n in ("ChannelSetup", "CommitmentInfo2", "HTLCInfo2", "SimplePolicy")}
+    structs["EnforcementState"] = estate_fields
+    methods, texts = {}, {}
+    plan = [("CommitmentInfo2", "htlcs_is_empty", tx, "impl CommitmentInfo2", "tx/tx.rs"),
+            ("SimpleValidator", "outside_epsilon_range", sv, "impl SimpleValidator", "policy/simple_validator.rs"),
+            ("SimpleValidator", "validate_mutual_close_tx", sv, "impl Validator for SimpleValidator", "policy/simple_validator.rs")]
+    for owner, n, src, header, _ in plan:
+        texts[(owner, n)] = method_source(src, None, n, header=header)
+        methods[(owner, n)] = P(lex(texts[(owner, n)]), known).fn()
+    # validate_fee: translated in Gen/CommitmentPolicyGen.v
+    methods[("SimpleValidator", "validate_fee")] = P(lex(method_source(sv, "SimpleValidator", "validate_fee")), known).fn()
+    weight_src = ("mutual_close_tx_weight(&ClosingTransaction::new(to_holder_value_sat, to_counterparty_value_sat, "
+                  "holder_script.clone().unwrap_or_else(|| ScriptBuf::new()), "
+                  "counterparty_script.clone().unwrap_or_else(|| ScriptBuf::new()), setup.funding_outpoint).trust().built_transaction())")
+    pw = P(lex(weight_src) + [("eof", "")], known)
+    weight_ast = pw.expr()
+    opaque = [(weight_ast, {"to_holder_value_sat": "u64", "to_counterparty_value_sat": "u64", "holder_script": "opt_id",
+                            "counterparty_script": "opt_id", "setup": "struct:ChannelSetup"}, "mutual_close_weight", "usize")]
+    g = GenR(structs, {}, methods, {}, {}, opaque, "SimpleValidator", "SimplePolicy", known)
+    cp = "CommitmentPolicyGen."
+    g.coq_struct = {n: (cp + n, cp + n) for n in ("ChannelSetup", "CommitmentInfo2", "HTLCInfo2", "SimplePolicy")}
+    g.coq_fn = {("SimpleValidator", "validate_fee"): cp + "gen_validate_fee"}
+    g.opaque_methods = {("dyn:Wallet", "can_spend"): ("wallet_can_spend", ["id", "id"], "res_opaque:bool"),
+                        ("dyn:Wallet", "allowlist_contains"): ("wallet_allowlist_contains", ["id", "id"], "bool")}
+    out = ["(* struct EnforcementState (policy/validator.rs): the fields whose types are inside the fragment; the commitment\n"
+           "   contents are the records of Gen/CommitmentPolicyGen.v here *)\nRecord EnforcementState := mk_EnforcementState {\n%s\n}." %
+           ";\n".join("  EnforcementState_%s : %s" % (f, g.coq_type(t)) for f, t in estate_fields)]
+    for owner, n, _, header, where in plan:
+        out.append("(* %s::%s (%s, `%s`)\n%s *)\n%s" % (owner, n, where, header, "\n".join(
+            "   " + l for l in texts[(owner, n)].strip().replace("(*", "( *").replace("*)", "* )").splitlines()),
+            g.method2(owner, methods[(owner, n)])))
+    text = ("(** GENERATED by tools/gen_rustfn.py - do not edit.  Statement-by-statement translation of\n"
+            "      SimpleValidator::validate_mutual_close_tx (whole body), ::outside_epsilon_range (policy/simple_validator.rs),\n"
+            "      CommitmentInfo2::htlcs_is_empty (tx/tx.rs).\n"
+            "    ChannelSetup, CommitmentInfo2, SimplePolicy and validate_fee are those of Gen/CommitmentPolicyGen.v; scripts, paths and\n"
+            "    the funding outpoint are opaque identities (`==` = equality of identities).  Parameters: the wallet's can_spend\n"
+            "    (None = its error) and allowlist_contains, the policy filter, and [mutual_close_weight]: the answer of\n"
+            "    mutual_close_tx_weight on LDK's ClosingTransaction built from the function's own arguments.  The meaning of every\n"
+            "    construct is in Base/Rust.v. *)\n"
+            "From Coq Require Import String.\nFrom VLS Require Export Base.Rust.\nFrom VLS Require Gen.CommitmentPolicyGen.\n\n"
+            + "\n\n".join(out) + "\n")
+    outp = os.path.join(ROOT, "coq", "theories", "Gen", "MutualCloseGen.v")
+    if not os.path.exists(outp) or open(outp).read() != text:
+        open(outp, "w").write(text)
+    return {"translated": ["%s::%s" % (o, n) for o, n, _, _, _ in plan], "estate_fields": [f for f, _ in estate_fields],
+            "parameters": ["mutual_close_weight", "wallet_can_spend", "wallet_allowlist_contains", "warn (the policy filter)"]}
+
+
 if __name__ == "__main__":
     repo = sys.argv[1] if len(sys.argv) > 1 else "/repo"
     print(generate_velocity(repo))
@@ -2748,3 +2980,4 @@ if __name__ == "__main__":
     print(generate_commitment_policy(repo))
     print(generate_enforcement_rules(repo))
     print(generate_sweep(repo))
+    print(generate_mutual_close(repo))
